@@ -276,6 +276,11 @@ def step(ctx, c, twin, dtypes, hist, kind, n, span, op, optag, opval_factory, ta
         apply(c, op, optag, operand, target, n, span, extra)
         if op == 'add':
             dtypes[target] = c.__dict__['_' + target].dtype
+            if extra is not None and np.dtype(extra).itemsize > 0 and dtypes[target] != np.dtype(extra):
+                # an explicit, fully specified dtype (fixed width) is the dtype the variable is created with
+                hist.append(desc + ['ok'])
+                ctx.violation('series-dtype', f'{kind}: add_variable({target!r}, ..., dtype={extra!r}) created a series of dtype {dtypes[target]}', {'kind': kind, 'n': n, 'history': hist})
+                return False
     except InvariantBroken as e:
         hist.append(desc + ['InvariantBroken'])
         ctx.violation('series-shape', f'{kind}: icontract invariant broken by {desc}: {e}', {'kind': kind, 'n': n, 'history': hist})
@@ -381,7 +386,7 @@ def choose(rng, c, n, span, op):
     names = list(c.__dict__['index'])
     attrs = [a for a in c.__dict__['_attributes'] if not a.startswith('_')]
     if op == 'add':
-        return rng.choice(['A', 'B', 'C', 'D', 'lags']), rng.choice([None, None, float, int, bool, str])
+        return rng.choice(['A', 'B', 'C', 'D', 'lags']), rng.choice([None, None, float, int, bool, str, '<U1', '<U3', 'U8', np.float32, np.int16, np.uint8])
     if op == 'attr':
         return (rng.choice(names) if names else 'A'), None
     if op == 'replace':
